@@ -782,9 +782,9 @@ package reftable
 //@ extern os.OpenFile
 //@   params name, flag, perm
 //@   requires flag == 193 && isLock(name)
-//@   modifies held, fileOf, listNames, listLen
-//@   ensures result1 == nil ==> result0 != nil && fresh(result0) && !old(held[name]) && held[name] && fileOf[result0] == name
-//@   ensures result1 != nil ==> result0 == nil && isExist(result1) && held[name] == old(held[name])
+//@   modifies held, fileOf, listNames, listLen, lockFails
+//@   ensures result1 == nil ==> result0 != nil && fresh(result0) && !old(held[name]) && held[name] && fileOf[result0] == name && lockFails == old(lockFails)
+//@   ensures result1 != nil ==> result0 == nil && isExist(result1) && held[name] == old(held[name]) && lockFails == old(lockFails) + 1
 //@   ensures forall p string :: p != name ==> held[p] == old(held[p])
 //@   ensures forall f ref :: allocated(f) ==> fileOf[f] == old(fileOf[f])
 //@   ensures listStable()
@@ -849,8 +849,12 @@ package reftable
 //@   pure
 //@   ensures len(elem) == 2 ==> result == pathJoin(elem[0], elem[1])
 
+// Assumption for the chooser: table files are smaller than 2^40 bytes and a stack has fewer than 2^20 tables; every
+// listed table holds at least one block after its header (empty tables are never added to a stack).
+//@ spec sizesOKforStack(st *Stack) bool = len(st.stack) < 1048576 && (forall i int :: 0 <= i && i < len(st.stack) ==> 27 < st.stack[i].size && st.stack[i].size < 1099511627776)
+
 //@ spec heldWf() bool = listLen >= 0 && (forall p string :: held[p] ==> isLock(p))
-//@ spec wfStack(st *Stack) bool = heldWf() && st != nil && st.listFile == theListFile && st.reftableDir == theDir && (forall i int :: 0 <= i && i < len(st.stack) ==> st.stack[i] != nil && !isLock(st.stack[i].name))
+//@ spec wfStack(st *Stack) bool = heldWf() && st != nil && sizesOKforStack(st) && st.listFile == theListFile && st.reftableDir == theDir && (forall i int :: 0 <= i && i < len(st.stack) ==> st.stack[i] != nil && !isLock(st.stack[i].name))
 //@ spec namesMatch(st *Stack) bool = len(st.stack) == listLen && (forall i int :: 0 <= i && i < len(st.stack) ==> st.stack[i].name == listNames[i])
 
 // trusted: parses tables.list (ioutil.ReadFile + bytes.Split); one atomic read of one version of the list.
@@ -889,7 +893,8 @@ package reftable
 //@   requires wfStack(st)
 //@   modifies st.stack, st.merged, listNames, listLen, buflen, bufdata
 //@   ensures wfStack(st) && listStable()
-//@   ensures result == nil ==> (old(held[listLock()]) ==> namesMatch(st))
+//@   ensures old(held[listLock()]) ==> namesMatch(st)
+//@   ensures[no-fault-no-livelock] result == nil
 
 //@ func (*Stack).NextUpdateIndex
 //@   props C09
@@ -899,11 +904,12 @@ package reftable
 //@ func (*Stack).NewAddition
 //@   props C04 C08 C09 C16
 //@   requires wfStack(st)
-//@   modifies held, fileOf, ownsTmp, listNames, listLen
+//@   modifies held, fileOf, ownsTmp, listNames, listLen, lockFails
 //@   ensures[open] result1 == nil ==> result0 != nil && fresh(result0) && addInv(result0) && result0.lockFileName != "" && len(result0.newTables) == 0 && result0.stack == st && namesMatch(st)
 //@   ensures[lock-taken] result1 == nil ==> !old(held[listLock()]) && (forall p string :: p != listLock() ==> held[p] == old(held[p]))
 //@   ensures[no-leak] result1 != nil ==> heldSame() && result0 == nil
-//@   ensures tmpSubset()
+//@   ensures tmpSubset() && wfStack(st) && listLen >= 0
+//@   ensures result1 == nil ==> (result0.names == nil || fresh(result0.names)) && result0.newTables == nil
 //@   loop 1 invariant[a] -1 <= rangeindex && rangeindex < len(st.stack) && len(tr.names) == rangeindex + 1 && (tr.names == nil || fresh(tr.names))
 //@   loop 1 invariant[b] forall i int :: 0 <= i && i <= rangeindex ==> tr.names[i] == st.stack[i].name
 //@   loop 1 invariant[c] tr.lockFileName == listLock() && tr.stack == st && tr.lockFile != nil && fileOf[tr.lockFile] == tr.lockFileName && len(tr.newTables) == 0
@@ -954,7 +960,10 @@ package reftable
 //@   props C04 C05 C16 C08
 //@   requires addInv(tr) && tr.lockFileName != ""
 //@   modifies held, ownsTmp, fileOf, listNames, listLen, appends, commits, buflen, bufdata, tr.names, tr.names[:cap(tr.names)], tr.newTables, tr.newTables[:cap(tr.newTables)], tr.nextUpdateIndex, anyof(*Writer), anyof(*blockWriter), anyof(*paddedWriter)
-//@   ensures[inv-a] tr != nil && tr.stack == old(tr.stack) && wfStack(tr.stack) && tr.lockFileName == old(tr.lockFileName) && tr.lockFile == old(tr.lockFile)
+//@   ensures[inv-a1] tr != nil && tr.stack == old(tr.stack) && tr.lockFileName == old(tr.lockFileName) && tr.lockFile == old(tr.lockFile) && appends == old(appends) && commits == old(commits)
+//@   ensures[inv-a2] heldWf()
+//@   ensures[inv-a3] sizesOKforStack(tr.stack)
+//@   ensures[inv-a4] wfStack(tr.stack)
 //@   ensures[inv-b] forall j int :: 0 <= j && j < len(tr.newTables) ==> !isLock(tr.newTables[j])
 //@   ensures[inv-sep] ref(tr.names) != ref(tr.newTables) || ref(tr.names) == 0
 //@   ensures[inv-c1] len(tr.names) == listLen + len(tr.newTables)
@@ -978,8 +987,10 @@ package reftable
 //@   ensures[nothing-to-do] old(len(tr.newTables)) == 0 ==> appends == old(appends) && result == nil && heldSame() && tr.lockFileName == old(tr.lockFileName)
 //@   ensures[no-new-locks] heldSubset()
 //@   ensures[no-temp] tmpSubset()
+//@   ensures[no-fault] result == nil
 
 //@ ghost commits int
+//@ ghost lockFails int
 
 // coarse, trusted for now: refined under C01/C14
 //@ func (*Writer).AddRef
@@ -1042,20 +1053,21 @@ package reftable
 //@   props C04 C05 C08 C09 C16 C17
 //@   requires wfStack(st) && !held[listLock()]
 //@   requires (first < last || expiration != nil) ==> 0 <= first && first <= last && last < len(st.stack)
-//@   modifies held, ownsTmp, fileOf, listNames, listLen, wNames, wLen, appends, commits, buflen, bufdata, st.stack, st.merged, st.Stats.Attempts, st.Stats.EntriesWritten, anyof(*Writer), anyof(*blockWriter), anyof(*paddedWriter), anyof(*tableIter), anyof(*indexedTableRefIter), anyof(*filteringRefIterator), anyof(*blockIter)
+//@   modifies held, ownsTmp, fileOf, listNames, listLen, lockFails, wNames, wLen, appends, commits, buflen, bufdata, st.stack, st.merged, st.Stats.Attempts, st.Stats.EntriesWritten, anyof(*Writer), anyof(*blockWriter), anyof(*paddedWriter), anyof(*tableIter), anyof(*indexedTableRefIter), anyof(*filteringRefIterator), anyof(*blockIter)
 //@   callsite os.Rename 2 ghost a = first; b = last; k = (emptyTable ? 0 : 1)
 //@   ensures[locks-released] heldSubset()
 //@   ensures[no-temp] tmpSubset()
 //@   ensures[no-transaction] appends == old(appends)
 //@   ensures[progress] result0 && (first < last || expiration != nil) ==> commits == old(commits) + 1
 //@   ensures[failure-commits-nothing] !result0 ==> commits == old(commits)
+//@   ensures[lost-race-is-contention-not-error] lockFails > old(lockFails) ==> !result0 && result1 == nil
 //@   ensures wfStack(st)
 //@   loop 1 invariant[a] first <= i && i <= last + 1 && wfStack(st) && namesMatch(st) && st.stack == old(st.stack) && lockFileName == listLock() && held[listLock()] && !old(held[listLock()])
 //@   loop 1 invariant[b] len(subtableLocks) == i - first && len(deleteOnSuccess) == i - first && (subtableLocks == nil || fresh(subtableLocks)) && (deleteOnSuccess == nil || fresh(deleteOnSuccess)) && (ref(subtableLocks) != ref(deleteOnSuccess) || ref(subtableLocks) == 0)
 //@   loop 1 invariant[c] subLocksOK(subtableLocks)
 //@   loop 1 invariant[d] heldChar(subtableLocks)
 //@   loop 1 invariant[e] delOK(st, deleteOnSuccess, first)
-//@   loop 1 invariant[f] tmpSubset() && appends == old(appends) && commits == old(commits)
+//@   loop 1 invariant[f] tmpSubset() && appends == old(appends) && commits == old(commits) && lockFails == old(lockFails)
 //@   loop 2 invariant[a] 0 <= i && i <= first && len(names) == i && (names == nil || fresh(names)) && (forall k int :: 0 <= k && k < i ==> names[k] == st.stack[k].name)
 //@   loop 2 invariant[p1] wfStack(st) && namesMatch(st) && st.stack == old(st.stack) && appends == old(appends) && commits == old(commits)
 //@   loop 2 invariant[p2] lockFileName == listLock() && held[listLock()] && !old(held[listLock()])
@@ -1082,3 +1094,61 @@ package reftable
 //@   loop 4 invariant[a] -1 <= rangeindex && lockFileName == "" && !held[listLock()] && wfStack(st) && appends == old(appends) && commits == old(commits) + 1
 //@   loop 4 invariant[c] subLocksOK(subtableLocks) && heldChar(subtableLocks) && delOK(st, deleteOnSuccess, first) && st.stack == old(st.stack)
 //@   loop 4 invariant[t] forall p string :: ownsTmp[p] ==> old(ownsTmp[p])
+
+//@ func (*Stack).compactRangeStats
+//@   props C04 C08 C16 C17
+//@   requires wfStack(st) && !held[listLock()]
+//@   requires (first < last || expiration != nil) ==> 0 <= first && first <= last && last < len(st.stack)
+//@   modifies held, ownsTmp, fileOf, listNames, listLen, lockFails, wNames, wLen, appends, commits, buflen, bufdata, st.stack, st.merged, st.Stats.Attempts, st.Stats.Failures, st.Stats.EntriesWritten, anyof(*Writer), anyof(*blockWriter), anyof(*paddedWriter), anyof(*tableIter), anyof(*indexedTableRefIter), anyof(*filteringRefIterator), anyof(*blockIter)
+//@   ensures heldSubset() && tmpSubset() && appends == old(appends) && wfStack(st)
+//@   ensures[progress] result0 && (first < last || expiration != nil) ==> commits == old(commits) + 1
+//@   ensures[failure-commits-nothing] !result0 ==> commits == old(commits)
+
+//@ func (*Stack).tableSizesForCompaction
+//@   props C17
+//@   requires wfStack(st)
+//@   modifies nothing
+//@   ensures len(result) == len(st.stack)
+//@   ensures sizesOKforStack(st) ==> sizesOK(result)
+//@   loop 1 invariant -1 <= rangeindex && rangeindex < len(st.stack) && len(res) == rangeindex + 1 && (res == nil || fresh(res))
+//@   loop 1 invariant sizesOKforStack(st) ==> (forall i int :: 0 <= i && i <= rangeindex ==> 1 <= res[i] && res[i] < 1099511627776)
+
+// C17: the range handed to the compaction is the chooser's: contiguous, at least two tables, inside the stack.
+//@ func (*Stack).AutoCompact
+//@   props C04 C08 C16 C17
+//@   requires wfStack(st) && !held[listLock()]
+//@   modifies held, ownsTmp, fileOf, listNames, listLen, lockFails, wNames, wLen, appends, commits, buflen, bufdata, st.stack, st.merged, st.Stats.Attempts, st.Stats.Failures, st.Stats.EntriesWritten, anyof(*Writer), anyof(*blockWriter), anyof(*paddedWriter), anyof(*tableIter), anyof(*indexedTableRefIter), anyof(*filteringRefIterator), anyof(*blockIter)
+//@   ensures heldSubset() && tmpSubset() && appends == old(appends) && wfStack(st)
+//@   ensures commits <= old(commits) + 1
+
+//@ func (*Stack).CompactAll
+//@   props C04 C08 C16
+//@   requires wfStack(st) && !held[listLock()] && len(st.stack) > 0
+//@   modifies held, ownsTmp, fileOf, listNames, listLen, lockFails, wNames, wLen, appends, commits, buflen, bufdata, st.stack, st.merged, st.Stats.Attempts, st.Stats.EntriesWritten, anyof(*Writer), anyof(*blockWriter), anyof(*paddedWriter), anyof(*tableIter), anyof(*indexedTableRefIter), anyof(*filteringRefIterator), anyof(*blockIter)
+//@   ensures heldSubset() && tmpSubset() && appends == old(appends) && wfStack(st)
+
+// Assumption about the caller-supplied transaction function (see (*Addition).Add#write).
+//@ callback (*Stack).add#write
+//@   params w
+//@   modifies anyof(*Writer), anyof(*blockWriter), anyof(*paddedWriter)
+
+// C04 (safety core): one transaction; an error means nothing was committed except on the return site of Commit's
+// reload (see known findings); nothing is left locked or temporary (C08, C16).
+//@ func (*Stack).add
+//@   props C04 C08 C09 C16
+//@   requires wfStack(st) && !held[listLock()]
+//@   modifies held, ownsTmp, fileOf, listNames, listLen, lockFails, wNames, wLen, appends, commits, buflen, bufdata, st.stack, st.merged, anyof(*Writer), anyof(*blockWriter), anyof(*paddedWriter), anyof(*Addition)
+//@   ensures[locks-released] heldSubset()
+//@   ensures[no-temp] tmpSubset()
+//@   ensures[at-most-one] appends <= old(appends) + 1 && appends >= old(appends)
+//@   ensures[err-means-not-committed] result != nil ==> appends == old(appends)
+//@   ensures wfStack(st)
+
+//@ func (*Stack).Add
+//@   props C04 C08 C09 C16
+//@   requires wfStack(st) && !held[listLock()]
+//@   modifies held, ownsTmp, fileOf, listNames, listLen, lockFails, wNames, wLen, appends, commits, buflen, bufdata, st.stack, st.merged, st.Stats.Attempts, st.Stats.Failures, st.Stats.EntriesWritten, anyof(*Writer), anyof(*blockWriter), anyof(*paddedWriter), anyof(*tableIter), anyof(*indexedTableRefIter), anyof(*filteringRefIterator), anyof(*blockIter), anyof(*Addition)
+//@   ensures[locks-released] heldSubset()
+//@   ensures[no-temp] tmpSubset()
+//@   ensures[at-most-one] appends <= old(appends) + 1 && appends >= old(appends)
+//@   ensures[lock-failure-means-not-committed] result == ErrLockFailure ==> appends == old(appends)
